@@ -333,6 +333,56 @@ def fancy_index_updates(func):
     return out
 
 
+def falsy_position_tests(func):
+    """pos = None ... pos = i (i a 0-based loop index) ... `if not pos` / `if pos` / `pos or ...`: position 0 is a position, but it
+    is falsy - the truth test treats "found at the first place" as "not found".  -> [(line, name, index variable)]"""
+    fn = func.node
+    zero = set()
+    for n in ast.walk(fn):
+        if isinstance(n, ast.For):
+            it = n.iter
+            if isinstance(it, ast.Call) and isinstance(it.func, ast.Name):
+                if it.func.id == 'enumerate' and isinstance(n.target, ast.Tuple) and isinstance(n.target.elts[0], ast.Name):
+                    st = it.args[1] if len(it.args) > 1 else next((k.value for k in it.keywords if k.arg == 'start'), None)
+                    if st is None or (isinstance(st, ast.Constant) and st.value == 0):
+                        zero.add(n.target.elts[0].id)
+                if it.func.id == 'range' and isinstance(n.target, ast.Name) and (len(it.args) == 1 or (len(it.args) >= 2 and isinstance(it.args[0], ast.Constant) and it.args[0].value == 0)):
+                    zero.add(n.target.id)
+    if not zero:
+        return []
+    holds, none_init = {}, set()
+    for n in ast.walk(fn):
+        if isinstance(n, ast.Assign) and len(n.targets) == 1 and isinstance(n.targets[0], ast.Name):
+            if isinstance(n.value, ast.Name) and n.value.id in zero:
+                holds[n.targets[0].id] = n.value.id
+            if isinstance(n.value, ast.Constant) and n.value.value is None:
+                none_init.add(n.targets[0].id)
+    cands = {k: v for k, v in holds.items() if k in none_init}
+    if not cands:
+        return []
+    out = []
+    def truth_tested(e):
+        # names whose truth value decides e
+        if isinstance(e, ast.Name):
+            return [e]
+        if isinstance(e, ast.UnaryOp) and isinstance(e.op, ast.Not):
+            return truth_tested(e.operand)
+        if isinstance(e, ast.BoolOp):
+            return [x for v in e.values for x in truth_tested(v)]
+        return []
+    for n in ast.walk(fn):
+        tests = []
+        if isinstance(n, (ast.If, ast.While, ast.IfExp)):
+            tests.append(n.test)
+        if isinstance(n, ast.BoolOp):
+            tests += n.values[:-1]
+        for t in tests:
+            for x in truth_tested(t):
+                if x.id in cands and not any(o[1] == x.id for o in out):
+                    out.append((x.lineno, x.id, cands[x.id]))
+    return out
+
+
 def partial_key_caches(repo, func):
     """a value computed from the function's inputs is kept in MODULE-LEVEL state (a global rebound under `global`, or an entry
     stored into a module-level container) and reused later, while the test that decides on reuse / the key it is filed
